@@ -429,6 +429,24 @@ def check_coherence(w: World, v15, full=True):
             elif F(conv.amount) != want:
                 v15(f"scale/{mu.how}", f"unit {s} [{mu.how}]: {fs(x)} {s} = {fs(F(conv.amount))} reference units; its "
                     f"definition denotes the scale {fs(mu.factor)}")
+        if mt.has_ref and len(mt.units) >= 2:
+            # ... and relative to its neighbour unit of the same type (the ratio of two definitions)
+            other = mt.units[(mt.units.index(uid) + 1) % len(mt.units)]
+            mo = m.units[other]
+            try:
+                conv2 = Quantity(x, u).convert(w.units[other])
+            except Exception as exc:  # noqa: BLE001
+                v15(f"scale_pair/raises/{type(exc).__name__}", f"converting {s} to {w.syms[other]} raised "
+                    f"{type(exc).__name__}: {exc}")
+            else:
+                want2 = x * mu.factor / mo.factor
+                qo = m.unit_quantum(other)
+                if isinstance(conv2.amount, float):
+                    v15("scale_pair/float", f"{fs(x)} {s} [{mu.how}] in {w.syms[other]} [{mo.how}] is the float "
+                        f"{conv2.amount!r}")
+                elif (qo is None or (want2 / qo).denominator == 1) and F(conv2.amount) != want2:
+                    v15(f"scale_pair/{mu.how}.{mo.how}", f"{fs(x)} {s} [{mu.how}] = {fs(F(conv2.amount))} "
+                        f"{w.syms[other]} [{mo.how}]; the definitions denote {fs(want2)}")
         if mu.how == "ref" and mt.kind == "derived":
             nd = u.normalized_definition
             got = {}
